@@ -363,7 +363,7 @@ def part_whichpage(C):
         tk = TokenIn('tok2')
         raw = PMap()
         if 'token' in shape: raw.put('page_token', tk)
-        if 'other' in shape: raw.put('sort_by', other)
+        if 'other' in shape: raw.put('sortBy', other)          # scan parameter names are the consumer's (any case)
         fm_ok = z3.Bool('from_map_ok')
         de = Opaque('deserializer', raw)
         local = [(r'^<BTreeMap<.*> as [\w:]*Deserialize<.*>>::deserialize::<\w+>$', lambda ex, a, c: ex.ok(a[0].payload)),
@@ -598,7 +598,7 @@ def witnesses(chk):
         if not good: chk.counterexample(f'incoming token {c}: native {r}', c, True, role='token-in')
     cases = [{'op': 'page_limit', 'limit': l} for l in (None, 1, 9999, 10000, 10001, 2147493649, 4294967295)] + \
             [{'op': 'page_limit_bad', 'text': t} for t in ('0', '-1', 'abc', '', '4294967296')] + \
-            [{'op': 'whichpage', 'shape': s, 'len': 40} for s in ('token', 'token+other', 'other', 'empty')] + \
+            [{'op': 'whichpage', 'shape': s, 'len': 40} for s in ('token', 'token+other', 'other', 'extra+other', 'empty')] + \
             [{'op': 'results_page', 'items': k, 'json_len': 30} for k in (0, 1, 3)]
     res = replay(cases)
     for c, r in zip(cases, res):
